@@ -76,6 +76,12 @@ CHECKS = {
         note="Values from three finite alphabets rotated by VERIF_SEED; centered differences within one step of a bound are held to the one-sided bound; only upper bounds are enforced (as the statement says); thread-parallel approximation is excluded by CallableParallelExecution's documented contract.",
         technique="full product of structural axes, analytic oracle with derived error bounds and evaluation-point log",
     ),
+    "C17": dict(
+        engine="E2-product", category="exploration",
+        text="Bounded-exhaustive product of coupled harness systems (9 coupling graphs on 2-3 disciplines, unequal sizes, shared and local design variables; affine, nonlinear contractive, declared-linear, parameter-input and unbounded-coupling variants) x objective / constraint provider taken from every discipline in turn x every order of the design-space variables (all 24 orders of <= 4 variables; covering set / all 120 orders of 5) x formulation variants (IDF with and without constraint normalization, MDF with Jacobi / Gauss-Seidel / Newton inner MDAs, DisciplinaryOpt on weakly coupled systems) x 3 design points; oracle: closed-form coupled solution y*(x) and dy*/dx - MDF values equal IDF values at (x, y*(x)), IDF consistency constraints vanish there and equal the scaled F - y elsewhere, MDF total derivatives equal the chain-rule expression, design-space contents; thorough adds SLSQP on MDF / IDF / DisciplinaryOpt reaching the same optimum on convex members.",
+        note="Complete over the stated structural product; the quick tier is a stated sub-product (full formulation product on covering orders only); 3 value alphabets by VERIF_SEED; derived tolerances (MDA tolerance x conditioning); not a proof over real inputs.",
+        technique="bounded-exhaustive product of coupled systems x variable orders x formulation variants, closed-form coupled-solution oracle",
+    ),
     "C18": dict(
         engine="E2-product", category="exploration",
         text="Full product of every RegressorFactory class implementing predict_jacobian x its discrete settings (all RBF kernels x epsilon, polynomial degrees and penalties, PCE, MOE, regressor chains, GP) x input/output transformer pipelines (length <= 2) x 3/4 learning sets x 8 query points, plus transformer pipelines alone and by-name surrogate disciplines, executed on the real classes; Jacobians are compared with Richardson-extrapolated differences of the model's own predict within an a-posteriori error estimate; interpolation, inverse-transform identities and bitwise SurrogateDiscipline equality are checked.",
